@@ -82,6 +82,10 @@ class Coalesce(Evaluatable[A]):
     @staticmethod
     def _present(member: Evaluatable, options: Options) -> Set[str]:
         """The keys a member depends on that are present in the options."""
+        if isinstance(member, Coalesce):
+            # a nested coalesce that failed as a whole: every one of its members failed
+            # (its own explain() only describes the last one)
+            return set().union(*(Coalesce._present(m, options) for m in member.members))
         try:
             explained = member.explain(options)
         except Exception:  # explain is best effort here
